@@ -464,9 +464,18 @@ def r10h(ctx):
             for lp in [x for x in walk_no_nested(f.node) if isinstance(x, ast.For) and isinstance(x.target, ast.Name)]:
                 if any(isinstance(y, ast.Name) and y.id in elems for y in ast.walk(lp.iter)):
                     elems.add(lp.target.id)
-            cloned_under_flag = {a.targets[0].id for a in walk_no_nested(f.node) if isinstance(a, ast.Assign) and isinstance(a.targets[0], ast.Name)
-                                 and isinstance(a.value, ast.Attribute) and a.value.attr == "clone" and isinstance(a.value.value, ast.Name) and a.value.value.id == a.targets[0].id
-                                 and any(pol and isinstance(t, ast.Name) and t.id == "clone" for t, pol in structural_guards(a, stop=f.node))}
+            # `x = x.clone` under the flag — and the other conditions that copy is subject to (it protects only the attaches that are under them too)
+            clone_sites = {}
+            for a in walk_no_nested(f.node):
+                if isinstance(a, ast.Assign) and isinstance(a.targets[0], ast.Name) and isinstance(a.value, ast.Attribute) and a.value.attr == "clone" \
+                        and isinstance(a.value.value, ast.Name) and a.value.value.id == a.targets[0].id:
+                    gs_ = structural_guards(a, stop=f.node)
+                    if any(pol and isinstance(t, ast.Name) and t.id == "clone" for t, pol in gs_):
+                        nm_ = a.targets[0].id
+                        # (a test of the item itself — `item is None`, `not item` — only separates the arm that builds a fresh one)
+                        clone_sites[nm_] = {(ast.unparse(t), pol) for t, pol in gs_ if not (isinstance(t, ast.Name) and t.id == "clone")
+                                            and not {x.id for x in ast.walk(t) if isinstance(x, ast.Name)} <= {nm_}}
+            cloned_under_flag = set(clone_sites)
             for call in [x for x in walk_no_nested(f.node) if isinstance(x, ast.Call)]:
                 args = list(call.args) + [k.value for k in call.keywords if k.arg != "clone"]
                 passed = [a for a in args if isinstance(a, ast.Name) and a.id in elems]
@@ -479,6 +488,8 @@ def r10h(ctx):
                     continue
                 n += 1
                 gs = structural_guards(call, stop=f.node)
+                here = {(ast.unparse(t), pol) for t, pol in gs}
+                cloned_under_flag = {k for k, extra in clone_sites.items() if extra <= here}
 
                 def flag_false(t, pol):
                     # `clone is False` taken, `not clone` taken, `clone` not taken
@@ -766,6 +777,9 @@ _DOC = "src/odfdo/document.py"
 _XP = "src/odfdo/xmlpart.py"
 _EL = "src/odfdo/element.py"
 SEEDS = [
+    Seed("Row.append_cell copies the cell only when no repeat was handed in", "fault", _R,
+         "        if clone:\n            cell = cell.clone\n        self._append(cell)\n        if _repeated is None:\n            _repeated = cell.repeated or 1",
+         "        if _repeated is None:\n            if clone:\n                cell = cell.clone\n            _repeated = cell.repeated or 1\n        self._append(cell)", "R10h"),
     Seed("set_row_cells hands the caller's cells to extend_cells as they are", "fault", _T,
          "        row.extend_cells([cell.clone for cell in cells])", "        row.extend_cells(cells)", "R10h"),
     Seed("set_row_cells copies the cells in a loop", "neutral", _T,
